@@ -686,13 +686,22 @@ func (ctrler *StakeCtrler) exeWithdraw(ctx *ctrlertypes.TrxContext) xerrors.XErr
 
 	getReward := ctrler.rewardLedger.Get
 	setReward := ctrler.rewardLedger.Set
-	cancelSetReward := ctrler.rewardLedger.CancelSet
 	if ctx.Exec {
 		getReward = ctrler.rewardLedger.GetFinality
 		setReward = ctrler.rewardLedger.SetFinality
-		cancelSetReward = ctrler.rewardLedger.CancelSetFinality
 	}
 	rwd, xerr := getReward(ledger.ToLedgerKey(ctx.Tx.From))
+	if xerr != nil {
+		return xerr
+	}
+	if txpayload.ReqAmt.Cmp(rwd.cumulated) > 0 {
+		return xerrors.ErrInvalidTrx.Wrapf("insufficient reward")
+	}
+
+	// Credit first: it is the only step that can still fail (an amount the account refuses),
+	// and nothing has been changed yet when it does. Cancelling the reward record afterwards
+	// would also drop what the block already did to it (issuance, an earlier withdrawal).
+	xerr = ctx.AcctHandler.Reward(ctx.Sender.Address, txpayload.ReqAmt, ctx.Exec)
 	if xerr != nil {
 		return xerr
 	}
@@ -702,18 +711,7 @@ func (ctrler *StakeCtrler) exeWithdraw(ctx *ctrlertypes.TrxContext) xerrors.XErr
 		return xerr
 	}
 
-	xerr = setReward(rwd)
-	if xerr != nil {
-		return xerr
-	}
-
-	xerr = ctx.AcctHandler.Reward(ctx.Sender.Address, txpayload.ReqAmt, ctx.Exec)
-	if xerr != nil {
-		cancelSetReward(rwd.Key())
-		return xerr
-	}
-
-	return nil
+	return setReward(rwd)
 }
 
 func (ctrler *StakeCtrler) EndBlock(ctx *ctrlertypes.BlockContext) ([]abcitypes.Event, xerrors.XError) {
